@@ -165,6 +165,8 @@ func (language *Language) CompilerPasses() compiler.Passes {
 		&compiler.InlineObjectsWithTypes{
 			InlineTypes: []ast.Kind{ast.KindScalar, ast.KindArray, ast.KindMap, ast.KindDisjunction},
 		},
+		// inlining a named `null` (`Nothing: null`, `v: string | Nothing`) leaves `T | null` behind too
+		&compiler.DisjunctionWithNullToOptional{},
 	}
 }
 
